@@ -34,6 +34,10 @@ GATESETS = {
     'cx+rz+sx+x': ['CXGate', 'RZGate', 'SXGate', 'XGate'],
     'zz+u3': ['RZZGate', 'U3Gate'],
     'cx+u3+ccx': ['CXGate', 'U3Gate', 'CCXGate'],
+    # ZX-style single-qubit bases without RZ (the U1 branch of ZXZXZ)
+    'cx+u1+sx': ['CXGate', 'U1Gate', 'SXGate'],
+    'cz+u1+rx': ['CZGate', 'U1Gate', 'RXGate'],
+    'cx+rz+rx': ['CXGate', 'RZGate', 'RXGate'],
 }
 QUTRIT_GATESETS = {
     'csum+vu': [['CSUMGate', [3]], ['VariableUnitaryGate', [1, [3]]]],
@@ -401,3 +405,45 @@ def circuit_cases(draw, min_n=1, max_n=5, max_ops=14, radix=2,
 
 
 schedules = st.lists(st.integers(0, 7), min_size=1, max_size=12)
+
+
+@st.composite
+def routing_cases(draw):
+    """Cheap cases that force non-trivial routing: many two-qubit gates
+    between arbitrary pairs on a sparse 4-6 qubit machine, level 1."""
+    n = draw(st.integers(3, 5))
+    ops = []
+    for _ in range(draw(st.integers(4, 12))):
+        if draw(st.integers(0, 3)) == 0:
+            ops.append([draw(st.sampled_from(['HGate', 'TGate', 'SXGate'])),
+                        [draw(st.integers(0, n - 1))], []])
+        elif n >= 3 and draw(st.integers(0, 9)) == 0:
+            ops.append(['CCXGate',
+                        list(draw(st.permutations(range(n)))[:3]), []])
+        else:
+            a = draw(st.integers(0, n - 1))
+            b = draw(st.integers(0, n - 2))
+            b = b if b < a else b + 1
+            ops.append([draw(st.sampled_from(['CXGate', 'CXGate', 'CZGate'])),
+                        [a, b], []])
+    if draw(st.booleans()):
+        k = draw(st.integers(1, n))
+        loc = sorted(draw(st.permutations(range(n)))[:k])
+        ops.append(['measure', loc, list(draw(st.permutations(range(k))))])
+    m = n + draw(st.sampled_from([0, 0, 1]))
+    kind = draw(st.sampled_from(['line', 'line', 'star', 'tree']))
+    if kind == 'line':
+        graph = [[i, i + 1] for i in range(m - 1)]
+    elif kind == 'star':
+        graph = [[0, i] for i in range(1, m)]
+    else:
+        graph = draw(graphs(m)) or [[i, i + 1] for i in range(m - 1)]
+    gs = draw(st.sampled_from(['cx+u3', 'cx+u3', 'cz+u3', 'cx+u1+sx']))
+    return {
+        'circ': {'radix': 2, 'n': n, 'ops': ops},
+        'model': {'m': m, 'graph': graph, 'gates': GATESETS[gs], 'radix': 2,
+                  'gs': gs},
+        'level': 1, 'mss': 3, 'eps': 1e-8,
+        'seed': draw(st.integers(0, 10**6)), 'nw': draw(st.integers(1, 2)),
+        'sched': draw(schedules), 'policy': None, 'tier': 'quick',
+    }
